@@ -60,7 +60,7 @@ from __future__ import annotations
 import ast
 import copy
 
-from ..core import src, AnalysisError, parent, same_expr, increment_of
+from ..core import src, AnalysisError, parent, same_expr, increment_of, clone
 from .. import units as U
 from .. import ispace as I
 from .. import lints
@@ -2071,7 +2071,184 @@ def _direct_site(chk, f, c, label, fparams, hparams, std, comm_param=False):
     _site(chk, f, c, label, [], hparams, comm_param=comm_param, bound=({"npts": base, "mpi_size": b[fparams[2]]}, ["npts", "mpi_size"]))
 
 
+class _Rec:
+    """stands for the check while one call site is analysed: obligations are recorded, not emitted (reads go to the real check)"""
+
+    def __init__(self, chk):
+        self.__dict__["_chk"] = chk
+        self.__dict__["recorded"] = []
+        self.__dict__["_c20_site_parities"] = []
+
+    def __getattr__(self, name):
+        return getattr(self.__dict__["_chk"], name)
+
+    def ob(self, rule, node, construct, ok, msg="", **kw):
+        self.recorded.append((rule, node, construct, ok, msg, kw))
+
+    def statuses(self):
+        return [r[3] for r in self.recorded]
+
+    def flush(self, prefix="", downgrade=None):
+        chk = self.__dict__["_chk"]
+        for rule, node, construct, ok, msg, kw in self.recorded:
+            if ok is False and downgrade:
+                ok, msg = None, msg + downgrade
+            chk.ob(rule, node, construct, ok, (prefix + msg) if ok is not True else msg, **kw)
+        chk.__dict__.setdefault("_c20_site_parities", []).extend(self._c20_site_parities)
+
+
+def _relink(fn):
+    for n in ast.walk(fn):
+        for ch in ast.iter_child_nodes(n):
+            ch._parent = n
+    ast.fix_missing_locations(fn)
+
+
+def _free_input(f, test):
+    """is the decision a test of a value the caller of `f` chooses freely (a parameter, an option popped from **kwargs), so that both
+    outcomes occur?  -> (name, value of the name when the test is true) or None"""
+    pol = True
+    while isinstance(test, ast.UnaryOp) and isinstance(test.op, ast.Not):
+        test, pol = test.operand, not pol
+    if isinstance(test, ast.Compare) and len(test.ops) == 1 and isinstance(test.ops[0], (ast.Is, ast.IsNot)) and isinstance(test.left, ast.Name) \
+            and isinstance(test.comparators[0], ast.Constant) and test.comparators[0].value is None:
+        # `p is None` of a parameter: the caller passes it or not
+        if test.left.id in _params(f) + [a.arg for a in f.args.kwonlyargs] and _defs(f, test.left.id) == ([], []):
+            return test.left.id + " is None", pol == isinstance(test.ops[0], ast.Is)
+        return None
+    if not isinstance(test, ast.Name):
+        return None
+    vals, augs = _defs(f, test.id)
+    if augs:
+        return None
+    if not vals:
+        return (test.id, pol) if test.id in _params(f) + [a.arg for a in f.args.kwonlyargs] else None
+    kwarg = f.args.kwarg.arg if f.args.kwarg else None
+    v = vals[0]
+    if len(vals) == 1 and isinstance(v, ast.Call) and isinstance(v.func, ast.Attribute) and v.func.attr in ("pop", "get") and \
+            isinstance(v.func.value, ast.Name) and v.func.value.id == kwarg and v.args and isinstance(v.args[0], ast.Constant):
+        return test.id, pol
+    return None
+
+
+def _site_by_paths(chk, f, c, label, gparams, hparams, via_helper, layout_params, comm_param):
+    """The call site decided path by path.  When the process count and the communicator of the layouts are assigned in the two
+    branches of one `if` (or arrive through a tuple returned by a helper that alpha.py wrote back in place), no single definition can
+    be followed; the function is then specialised to each combination of branches - `if t: A else: B` replaced by A, resp. B - and each
+    specialised copy is decided by the ordinary rule.
+    SOUNDNESS: every run takes one of the branches, so HOLDS on every copy is HOLDS; a VIOLATED copy is a defect only if its path is
+    taken by some run: checked - every specialised decision is a test of a free input of the function (a parameter / an option taken
+    from **kwargs, assigned once) and equal tests take equal values; otherwise the verdict is UNDECIDED.
+    -> the _Rec to flush, or None when this view decides nothing more"""
+    order = list(ast.walk(f))
+    try:
+        k_c = next(k for k, n in enumerate(order) if n is c)
+    except StopIteration:
+        return None
+    g = clone(f)
+    g._qual = getattr(f, "_qual", f.name)
+    c2 = list(ast.walk(g))[k_c]
+    if not (isinstance(c2, ast.Call) and ast.dump(c2) == ast.dump(c)):
+        return None
+    _split_tuple_assigns(g)
+    _relink(g)
+    # the names the process count and the communicator of the handler are computed from
+    # (the grid sizes and the other arguments of the handler are left out when the arguments can be told apart: a decision that only
+    # concerns them has nothing to do with the relation of the two communicators)
+    b2 = _bind(c2, gparams) if gparams and not any(isinstance(a, ast.Starred) for a in c2.args) and not any(k.arg is None for k in c2.keywords) else None
+    roots = [b2[gparams[1]]] if b2 and len(gparams) > 1 and gparams[1] in b2 else [c2]
+    for h in ast.walk(g):
+        if isinstance(h, ast.Call) and isinstance(h.func, ast.Name) and h.func.id == "getLayoutHandler":
+            hb2 = _bind(h, hparams) if not any(isinstance(a, ast.Starred) for a in h.args) and not any(k.arg is None for k in h.keywords) else None
+            roots += [hb2[p_] for p_ in ("comm", "nprocs") if p_ in hb2] if hb2 and "comm" in hb2 else [h]
+    chain = {n.id for r_ in roots for n in ast.walk(r_) if isinstance(n, ast.Name) and isinstance(n.ctx, ast.Load)}
+    skip = {id(n) for n in ast.walk(b2[gparams[0]])} if b2 and gparams and gparams[0] in b2 and len(roots) > 1 and roots[0] is not c2 else set()
+    for _ in range(6):
+        more = set()
+        for nm in chain:
+            vals, _augs = _defs(g, nm)
+            more |= {n.id for v in vals if v is not None for n in ast.walk(v) if isinstance(n, ast.Name) and id(n) not in skip}
+        if more <= chain:
+            break
+        chain |= more
+    st_c = _stmt_of(c2)
+    ifs = []
+    for k, st in enumerate(g.body):
+        if st is st_c or any(x is c2 for x in ast.walk(st)):
+            break
+        if isinstance(st, ast.If) and st.orelse:
+            sb = {n.id for s_ in st.body for n in ast.walk(s_) if isinstance(n, ast.Name) and isinstance(n.ctx, ast.Store)}
+            so = {n.id for s_ in st.orelse for n in ast.walk(s_) if isinstance(n, ast.Name) and isinstance(n.ctx, ast.Store)}
+            # a branch that can leave the function or a loop does not reach the call: not specialised
+            jumps = any(isinstance(n, (ast.Return, ast.Raise, ast.Break, ast.Continue, ast.Yield, ast.YieldFrom)) for n in ast.walk(st))
+            if sb & so & chain:
+                if jumps:
+                    return None
+                ifs.append(k)
+    if not ifs or len(ifs) > 3:
+        return None
+    import itertools
+    recs = []
+    for combo in itertools.product((True, False), repeat=len(ifs)):
+        free = [_free_input(g, g.body[k].test) for k in ifs]
+        # equal tests of a value assigned once take equal values
+        value = {}
+        consistent = True
+        for fr, taken in zip(free, combo):
+            if fr is not None:
+                v = taken == fr[1]
+                if value.setdefault(fr[0], v) != v:
+                    consistent = False
+        if not consistent:
+            continue
+        h = clone(g)
+        h._qual = g._qual
+        for k, taken in sorted(zip(ifs, combo), reverse=True):
+            st = h.body[k]
+            h.body[k:k + 1] = st.body if taken else st.orelse
+        _propagate_copies(h)
+        _relink(h)
+        cs = [n for n in ast.walk(h) if isinstance(n, ast.Call) and isinstance(n.func, ast.Name) and n.func.id == c.func.id
+              and (n.lineno, n.col_offset) == (c.lineno, c.col_offset)] if isinstance(c.func, ast.Name) else []
+        if len(cs) != 1:
+            return None
+        rec = _Rec(chk.__dict__.get("_chk", chk))
+        _site_plain(rec, h, cs[0], label, gparams, hparams, via_helper=via_helper, layout_params=layout_params, comm_param=comm_param)
+        path = " and ".join(f"`{src(g.body[k].test)[:40]}` is {'true' if taken else 'false'}" for k, taken in zip(ifs, combo))
+        recs.append((rec, path, all(fr is not None for fr in free)))
+    if not recs:
+        return None
+    bad = [(r, p, fr) for r, p, fr in recs if False in r.statuses()]
+    if bad:
+        r, p, fr = bad[0]
+        r.__dict__["prefix"] = f"on the path where {p}: "
+        r.__dict__["downgrade"] = None if fr else (" - if the path is taken: its decisions are not all tests of a value the caller chooses "
+                                                    "freely (a parameter, an option from **kwargs assigned once), so that is not established")
+        return r
+    if any(None in r.statuses() for r, _p, _fr in recs):
+        return None
+    out = recs[0][0]
+    for r, _p, _fr in recs[1:]:
+        out.recorded.extend(r.recorded)
+        if r._c20_site_parities != out._c20_site_parities:
+            out.__dict__["_c20_site_parities"] = [None]
+    out.__dict__["prefix"], out.__dict__["downgrade"] = "", None
+    return out
+
+
 def _site(chk, f, c, label, gparams, hparams, via_helper=False, layout_params=(), comm_param=False, bound=None):
+    """one call site: decided on the function as it stands; where that leaves something undecided, path by path (`_site_by_paths`)"""
+    rec = _Rec(chk)
+    _site_plain(rec, f, c, label, gparams, hparams, via_helper=via_helper, layout_params=layout_params, comm_param=comm_param, bound=bound)
+    prefix, downgrade = "", None
+    if None in rec.statuses() and False not in rec.statuses() and bound is None:
+        alt = _site_by_paths(chk, f, c, label, gparams, hparams, via_helper, layout_params, comm_param)
+        if alt is not None:
+            rec, prefix, downgrade = alt, alt.__dict__.get("prefix", ""), alt.__dict__.get("downgrade")
+    rec.flush(prefix, downgrade)
+
+
+def _site_plain(chk, f, c, label, gparams, hparams, via_helper=False, layout_params=(), comm_param=False, bound=None):
     kw = dict(file=U.SETUPS, func=getattr(f, "_qual", f.name))
     construct = f"{label}: {GRID}(constants.npts, <layout communicator>.Get_size()) -> getLayoutHandler"
     good = "the grid sizes and the size of the communicator the layouts are built on; the result is the handler's process grid"
@@ -2304,6 +2481,14 @@ def pure_search(chk, tree, fn):
         chk.ob("N4-pure-search", node, f"memoised table changed in {f_.name}", False,
                desc + ": the cache hands the same object to every later call, so the next call with the same process count starts "
                "from the changed table and can refuse a grid that exists (or return another one)", func=f_.name, **kw)
+    # possible changes of a memoised result that the lint could not establish (the object changed may be a copy, the callee may not
+    # be the memoised function): UNDECIDED under the same rule
+    n_und = 0
+    for f_, node, desc, why_ in getattr(muts, "undecided", ()):
+        n_und += 1
+        chk.ob("N4-pure-search", node, f"memoised table changed in {f_.name}", None,
+               f"{desc}: not established ({why_}); if the object changed is the one the cache holds, the next call with the same process "
+               "count starts from the changed table", func=f_.name, **kw)
     # module-level tables (hand-written memoisation): filling is fine, changing a stored object in place is not
     tables = set()
     for st in tree.body:
@@ -2315,7 +2500,13 @@ def pure_search(chk, tree, fn):
     nstate = nviol = 0
     if tables:
         for f_ in [n for n in ast.walk(tree) if isinstance(n, ast.FunctionDef)]:
-            for node, desc in lints.shared_state_mutations(f_, lambda s_: s_ in tables):
+            found = lints.shared_state_mutations(f_, lambda s_: s_ in tables)
+            for node, desc, why_ in getattr(found, "undecided", ()):
+                n_und += 1
+                chk.ob("N4-pure-search", node, f"module-level table changed in {f_.name}", None,
+                       desc.replace("the stored", "the module-level table") + f": not established ({why_}); cannot decide that a later call "
+                       "does not read a changed object", func=f_.name, **kw)
+            for node, desc in found:
                 recv = node.func.value if isinstance(node, ast.Call) and isinstance(node.func, ast.Attribute) else \
                     node.target if isinstance(node, ast.AugAssign) else \
                     next((t.value for t in getattr(node, "targets", []) if isinstance(t, ast.Subscript)), None)
@@ -2340,9 +2531,9 @@ def pure_search(chk, tree, fn):
                            "depends on the calls made before"), func=f_.name, **kw)
     hard_muts = [m for m in muts if not any(m[1] is s_[1] for s_ in soft_muts)]
     chk.ob("N4-pure-search", fn, "no call changes state that a later call reads",
-           True if not muts and not nstate else False if hard_muts or nviol else None,
+           True if not muts and not nstate and not n_und else False if hard_muts or nviol else None,
            f"memoised helpers: {sorted(memo) or 'none'}; module-level tables: {sorted(tables) or 'none'}; no in-place change of a "
-           "memoised or stored result" if not muts and not nstate else "see the in-place changes reported above",
+           "memoised or stored result" if not muts and not nstate and not n_und else "see the in-place changes reported above",
            func=FROM_MAX, nontrivial=False, **kw)
     # A `global` / `nonlocal` declaration alone is no defect (a table filled on first use, a call counter): whether a later call READS
     # something an earlier call stored from its arguments is not followed here, so the declaration is UNDECIDED, never VIOLATED.
@@ -3985,7 +4176,8 @@ def search_rules(chk, fn, nf_tree):
     for lp in [n for n in ast.walk(fn) if isinstance(n, ast.While)]:
         carried, stuck, npaths = lints.stuck_iterations(lp)
         stored = {n.id for n in ast.walk(lp) if isinstance(n, ast.Name) and isinstance(n.ctx, ast.Store)}
-        for dec, end in stuck:
+        for sp in stuck:
+            dec, end = sp
             # a path that takes a constant test against its value does not exist
             if any(isinstance(t, ast.Constant) and bool(t.value) != taken for t, taken in dec):
                 continue
@@ -4022,6 +4214,9 @@ def search_rules(chk, fn, nf_tree):
                     continue
                 elif feasible is None:
                     verdict, why = None, f"{path_text}; cannot decide that the path can be taken: {ftext}"
+                elif getattr(sp, "verdict", False) is not False:
+                    # the engine's own check of (S1) / (S2) did not establish the path: both have to agree for a violation
+                    verdict, why = None, f"{path_text}; not established by the path analysis of the lint: {getattr(sp, 'why', '')}"
                 else:
                     verdict, why = False, (f"{path_text}, and its decisions can hold together ({ftext}; the bounds are arguments of the "
                                            "function): the same iteration repeats forever, the search does not terminate")
